@@ -47,6 +47,7 @@ def _case(draw, tier):
     c["steer"] = draw(st.sampled_from(["keep", "one", "one", "zero"]))
     c["pick"] = draw(st.integers(0, 30))
     c["quant"] = "the"
+    c["share_condition_object"] = draw(st.booleans())
     return c
 
 
@@ -95,7 +96,18 @@ def check(case) -> Outcome:
     want = {"n0": "none", "n1": "value", "n2plus": "multiple"}[cls]
     feats.append(cls)
 
-    built = build_query(eff, objs, quant="the")
+    shared = bool(case.get("share_condition_object")) and eff.get("cond") is not None and not A.has_kind(eff["cond"], "not")
+    if shared:
+        # the description's condition OBJECT is afterwards also used to build an `an` query (users reuse conditions)
+        from .c04 import _build_sharing
+        from ..build import declare_vars
+        V, conts = declare_vars(eff, objs)
+        spec = dict(eff, quant="the", split_top=eff.get("split_top", False))
+        built = _build_sharing(V, spec, conts)
+        other = _build_sharing(V, dict(spec, quant="an"), conts, built.conds)
+        classes.append("condition_object_shared_with_a_later_query")
+    else:
+        built = build_query(eff, objs, quant="the")
 
     def ev():
         r = built.q.evaluate()
@@ -103,7 +115,8 @@ def check(case) -> Outcome:
 
     o1 = _outcome(ev)
     o2 = _outcome(ev)
-    for label, o in (("first evaluation", o1), ("re-evaluation", o2)):
+    o3 = _outcome(ev)
+    for label, o in (("first evaluation", o1), ("re-evaluation", o2), ("third evaluation", o3)):
         if o[0] != want:
             got = o[1] if o[0] in ("error",) else (show_rows([o[1]]) if o[0] == "value" else o[0])
             return fail("wrong_outcome_" + o[0], f"{label}: {n} solution(s) {show_rows(expected)} so expected '{want}', "
@@ -115,7 +128,7 @@ def check(case) -> Outcome:
         return fail("an_count", f"an(...) yields {len(an_rows)} rows {show_rows(an_rows)} but the reference has {n}: "
                                 f"{show_rows(expected)}", nontrivial=nontrivial, classes=classes, features=feats)
     if want == "value":
-        for label, o in (("first evaluation", o1), ("re-evaluation", o2)):
+        for label, o in (("first evaluation", o1), ("re-evaluation", o2), ("third evaluation", o3)):
             if ident(o[1]) != ident(an_rows[0]) or ident(o[1]) != ident(expected[0]):
                 return fail("wrong_value", f"{label}: the(...) returned {show_rows([o[1]])}, an(...) yields "
                                            f"{show_rows(an_rows)}, reference {show_rows(expected)}", nontrivial=nontrivial,
